@@ -36,6 +36,10 @@ def worker(k):
                 return
             d = '%s/seeded/%s' % (ROOT, i)
             meta = json.load(open(d + '/meta.json'))
+            if meta.get('superseded'):
+                with lock:
+                    print(i, 'superseded', flush=True)
+                continue
             prop = meta.get('property') or i.split('-')[0]
             checks = [prop] + [c for c in meta.get('checks', {}) if c != prop]
             sh('git -C %s checkout -q -- . && git -C %s clean -fdq' % (wt, wt))
